@@ -3,7 +3,7 @@ SPEC = {
     "lean_props": ["TunnoxModel.Props.C03"],
     "harness": {
         "pkg": "c03",
-        "shims": {"security": "internal/security"},
+        "shims": {"security_c03": "internal/security"},
         "runs": [{"args": [], "corpus": ""}],
     },
     "rule": ("one case = one history of handshake events executed against a fresh REAL stack (ServerAuthHandler + SessionManager + "
@@ -31,6 +31,7 @@ SPEC = {
         "BruteForceProtector: the whole history lies inside one failure window (recent = total failures); a ban is permanent, long temporary, or a temporary one that has lapsed before the next event (`bans`)",
         "RateLimiter: integral tokens, no refill inside a history (Rate 0 in the harness); refill = an explicit event",
         "GenerateChallenge never fails (crypto/rand); GenerateAnonymousCredentials fails only through the injected `issue fail` fault",
+        "the asynchronous unban that IsBanned starts for a lapsed ban is not a step of the model: the harness forces the one interleaving that matters (`reban`: the address is banned anew before that unban runs, single P, no yield in between) and the model says the new ban stands (= banp / ban)",
         "handshake messages of one server are processed one at a time (the session layer's per-connection read loop); "
         "ControlConnection.ClientID/Authenticated are plain fields and concurrent handshakes on one connection are out of scope",
         "the client index holds object pointers; the model keeps connection ids, which coincide with object identity for "
